@@ -10,6 +10,7 @@ import (
 	"diagonal.works/b6/api/functions"
 	"diagonal.works/b6/ingest"
 	pb "diagonal.works/b6/proto"
+	"diagonal.works/b6/verifhook"
 	"golang.org/x/mod/semver"
 	"google.golang.org/protobuf/proto"
 )
@@ -26,7 +27,9 @@ type service struct {
 func (s *service) Evaluate(ctx context.Context, request *pb.EvaluateRequestProto) (*pb.EvaluateResponseProto, error) {
 	s.lock.RLock()
 	defer s.lock.RUnlock()
+	verifhook.Point("service.evaluate.rlocked")
 	w := s.worlds.FindOrCreateWorld(b6.NewFeatureIDFromProto(request.Root))
+	verifhook.Point("service.evaluate.found")
 
 	apply := func(change ingest.Change) (b6.Collection[b6.FeatureID, b6.FeatureID], error) {
 		ids, err := change.Apply(w)
@@ -59,9 +62,11 @@ func (s *service) Evaluate(ctx context.Context, request *pb.EvaluateRequestProto
 
 	if change, ok := v.(ingest.Change); ok {
 		s.lock.RUnlock()
+		verifhook.Point("service.evaluate.upgrade")
 		s.lock.Lock()
 		v, err = apply(change)
 		s.lock.Unlock()
+		verifhook.Point("service.evaluate.applied")
 		s.lock.RLock()
 		if err != nil {
 			return nil, err
